@@ -7,7 +7,7 @@ From Coq Require Import List String ZArith Bool Arith Lia.
 Require Import OV.Graph.Syntax OV.Graph.Sem OV.Graph.SemProofs OV.Graph.Wf OV.Graph.WfProofs.
 Require Import OV.Script.Syntax OV.Script.Sets OV.Gen.Analysis OV.Gen.ScriptTables OV.Script.Translate OV.Script.PySem
                OV.Script.TranslateProofs OV.Script.AnalysisProofs OV.Script.LivenessProofs OV.Script.TranslateIfProofs.
-Require Import OV.Script.TranslateForDefs OV.Script.TranslateForProofs OV.Script.TranslateNestDefs.
+Require Import OV.Script.TranslateForDefs OV.Script.TranslateForProofs OV.Script.TranslateNestDefs OV.Script.LivenessLoopProofs.
 Import ListNotations.
 Local Open Scope string_scope.
 Local Open Scope list_scope.
@@ -127,11 +127,9 @@ Section ClassFacts.
   Notation loop_side := (loop_side globals cic).
 
   Lemma loop_side_spec : forall iv w body lo_s L Lf Lb, loop_side iv w body lo_s L Lf Lb = true ->
-    (forall x, In x Lf -> In x L) /\
     (forall x, In x (sinter (assigned_block cic body) (sunion (exposed_uses cic body) lo_s)) -> In x Lf) /\
     (forall x, In x Lb -> ~ In x (iv :: sinter (assigned_block cic body) (sunion (exposed_uses cic body) lo_s)) ->
                In x L /\ ~ In x (assigned_block cic body)) /\
-    (forall x, In x lo_s -> ~ In x (iv :: sinter (assigned_block cic body) (sunion (exposed_uses cic body) lo_s)) -> In x L) /\
     ~ In iv lo_s /\ ~ In iv (assigned_block cic body) /\
     (forall x, In x (sinter (assigned_block cic body) (sunion (exposed_uses cic body) lo_s)) -> lookup_assoc x globals = None) /\
     (w = true -> ~ In iv Lb).
@@ -139,15 +137,12 @@ Section ClassFacts.
     intros iv w body lo_s L Lf Lb H. unfold TranslateNestDefs.loop_side in H. cbv zeta in H.
     apply andb_true_iff in H. destruct H as [H C8]. apply andb_true_iff in H. destruct H as [H C7].
     apply andb_true_iff in H. destruct H as [H C6]. apply andb_true_iff in H. destruct H as [H C5].
-    apply andb_true_iff in H. destruct H as [H C4]. apply andb_true_iff in H. destruct H as [H C3].
-    apply andb_true_iff in H. destruct H as [C0 C2].
+    apply andb_true_iff in H. destruct H as [C2 C3].
     apply negb_true_iff in C5. apply negb_true_iff in C6.
-    split; [apply In_ssubset; exact C0|]. split; [apply In_ssubset; exact C2|]. split.
+    split; [apply In_ssubset; exact C2|]. split.
     { intros x Hx Hn. assert (Hd : In x (sdiff L (assigned_block cic body))).
       { apply (In_ssubset _ _ C3). apply In_sdiff. split; assumption. }
       apply In_sdiff in Hd. exact Hd. }
-    split.
-    { intros x Hx Hn. apply (In_ssubset _ _ C4). apply In_sdiff. split; assumption. }
     split; [apply mem_false_not_In; exact C5|]. split; [apply mem_false_not_In; exact C6|]. split.
     { intros x Hx. pose proof (In_forallb _ _ _ C7 x Hx) as Hg. cbv beta in Hg.
       destruct (lookup_assoc x globals); [discriminate Hg | reflexivity]. }
@@ -176,21 +171,11 @@ Section ClassFacts.
         apply In_sunion. left. apply In_sunion. left.
         eapply Hrec; [exact Hct | exact Hx | | exact E1]. intro H. apply Hn. apply In_sunion. left. exact H.
     - cbn [TranslateNestDefs.stmt_ok] in Hc. apply andb_true_iff in Hc. destruct Hc as [_ Hc]. rewrite Hl in Hc.
-      destruct (loop_fixpoint cic afuel (SFor i b body) lo_s) as [Lf|]; [|discriminate].
-      destruct (live_block cic afuel body Lf) as [Lb|]; [|discriminate].
-      apply andb_true_iff in Hc. destruct Hc as [Hc _]. apply andb_true_iff in Hc. destruct Hc as [_ Hside].
-      apply loop_side_spec in Hside. destruct Hside as (_ & _ & _ & S4 & _).
-      rewrite assigned_for in Hn. apply S4; [exact Hx|]. intros [E|H].
-      + apply Hn. apply In_sunion. right. left. exact E.
-      + apply Hn. apply In_sunion. left. apply In_sinter in H. apply H.
+      destruct (loop_fixpoint cic afuel (SFor i b body) lo_s) as [Lf|] eqn:Efx; [|discriminate].
+      destruct (loop_live_facts_for _ _ _ _ _ _ _ _ Hl Efx) as [F1 F2]. apply F1. apply F2. exact Hx.
     - cbn [TranslateNestDefs.stmt_ok] in Hc. rewrite Hl in Hc.
-      destruct (loop_fixpoint cic afuel (SWhile c body) lo_s) as [Lf|]; [|discriminate].
-      destruct (live_block cic afuel body Lf) as [Lb|]; [|discriminate].
-      apply andb_true_iff in Hc. destruct Hc as [Hc _]. apply andb_true_iff in Hc. destruct Hc as [_ Hside].
-      apply loop_side_spec in Hside. destruct Hside as (_ & _ & _ & S4 & S5 & _).
-      rewrite assigned_while in Hn. apply S4; [exact Hx|]. intros [E|H].
-      + subst x. contradiction.
-      + apply Hn. apply In_sinter in H. apply H.
+      destruct (loop_fixpoint cic afuel (SWhile c body) lo_s) as [Lf|] eqn:Efx; [|discriminate].
+      destruct (loop_live_facts_while _ _ _ _ _ _ _ Hl Efx) as [F1 F2]. apply F1. apply F2. exact Hx.
   Qed.
 
   Lemma keeps_go : forall sok, keeps_stmt sok -> keeps_blk (fun ss lo => blocks_go sok ss [] lo).
@@ -529,6 +514,7 @@ Section Nest.
     live_block cic afuel body Lf = Some Lb ->
     loop_side iv w body lo_s L Lf Lb = true ->
     body_ok (body_sok (block_ok fu)) w body Lf = true ->
+    (forall x, In x Lf -> In x L) -> (forall x, In x lo_s -> In x Lf) ->
     inv_on L pe sc ρ1 stb -> all_PT pe ->
     gen_unique cnd stb = Some (cin, stc) ->
     tr_loop_core globals cic afuel inputs fu s body lo_s sc outs iv cin o_bound o_cond while_c stc = Some (res, st', nodes) ->
@@ -543,8 +529,8 @@ Section Nest.
                     grows V ρ1 ρ2 stb st' /\ snd res = outs.
   Proof.
     intros fu k' IHb Hfu s body lo_s sc outs iv cnd cin o_bound o_cond while_c w stb stc res st' nodes pe ρ1 f2 o1 L Lf Lb
-           Hw Hfix Elb Hside Hclass Hinv1 Hall Hcin Hcore Hpy.
-    apply loop_side_spec in Hside. destruct Hside as (S0L & S2 & S3 & S4 & S5 & S6 & S7 & S8).
+           Hw Hfix Elb Hside Hclass S0L S4 Hinv1 Hall Hcin Hcore Hpy.
+    apply loop_side_spec in Hside. destruct Hside as (S2 & S3 & S5 & S6 & S7 & S8).
     set (A := assigned_block cic body) in *. set (S0 := sinter A (sunion (exposed_uses cic body) lo_s)) in *.
     unfold tr_loop_core in Hcore. fold A in Hcore. fold S0 in Hcore.
     apply bind_some in Hcore. destruct Hcore as (state & std & ns1 & ns1' & Hls & Hcore & ->).
@@ -715,9 +701,7 @@ Section Nest.
                 Hinv1 (grows_refl' V ρ1 stb (proj2 (proj2 Hinv1))) Xbi Hnm Hnd); [| |exact Hun|exact Fn].
       - intros x Hx HA. apply In_sunion in HA. destruct HA as [HA|[E|[]]]; [|subst x; contradiction].
         apply Hmem. apply In_sinter. split; [exact HA|]. apply In_sunion. right. exact Hx.
-      - intros x Hx HnA. apply S4; [exact Hx|]. intros [E|H].
-        + apply HnA. apply In_sunion. right. left. exact E.
-        + apply HnA. apply In_sunion. left. apply In_sinter in H. apply H. }
+      - intros x Hx HnA. apply S0L. apply S4. exact Hx. }
     pose proof (quiet_mapM _ _ uniq state quiet_uniq _ _ _ _ Hps) as Enps.
     destruct while_c as [c|].
     - (* while *)
@@ -1016,7 +1000,8 @@ Section Nest.
       pose proof (inv_on_grows V _ _ _ _ _ _ _ Hinv Gb) as Hinv1.
       destruct (loop_core_sound fu k' IH Hk' (SFor i b body) body lo_s sc outs i "cond_in" cin (Some b0) None None false stb stc
                   (sc1, outs1) st1 nh' pe ρ1 f2 o1 L Lf Lb eq_refl
-                  Efx Elb Hside Hclass Hinv1 Hall Hcin Hfor
+                  Efx Elb Hside Hclass (proj1 (loop_live_facts_for _ _ _ _ _ _ _ _ Hl Efx)) (proj2 (loop_live_facts_for _ _ _ _ _ _ _ _ Hl Efx))
+                  Hinv1 Hall Hcin Hfor
                   ltac:(exists b0, bv, n; auto))
         as (pe_n & ρ2 & -> & R2 & Hinv2 & Halln & G2 & Eo). cbn [fst snd] in *. subst outs1.
       exists sc1, st1, (nb ++ nh'), n2, pe_n, ρ2.
@@ -1029,7 +1014,8 @@ Section Nest.
       destruct (live_block cic afuel body Lf) as [Lb|] eqn:Elb; [|discriminate Hs].
       apply andb_true_iff in Hs. destruct Hs as [Hs Hclass]. apply andb_true_iff in Hs. destruct Hs as [Hs Hside].
       apply andb_true_iff in Hs. destruct Hs as [HcLf Hcg]. apply mem_In in HcLf.
-      assert (HcL : In c L). { pose proof (loop_side_spec globals cic _ _ _ _ _ _ _ Hside) as Hsp. apply (proj1 Hsp). exact HcLf. }
+      destruct (loop_live_facts_while _ _ _ _ _ _ _ Hl Efx) as [F1 F2].
+      assert (HcL : In c L) by (apply F1; exact HcLf).
       assert (Hcg' : lookup_assoc c globals = None) by (destruct (lookup_assoc c globals); [discriminate Hcg | reflexivity]).
       rewrite tr_stmts_while' in Htr.
       apply bind_some in Htr. destruct Htr as (lo_s' & st0 & n0 & n0' & Hlift & Htr & ->).
@@ -1048,7 +1034,7 @@ Section Nest.
       cbn [AnalysisProofs.exec_stmt1] in Es.
       destruct (loop_core_sound fu k' IH Hk' (SWhile c body) body lo_s sc outs "infinite_loop" c cp None (Some nn) (Some c) true st stc
                   (sc1, outs1) st1 nh' pe ρ f2 o1 L Lf Lb eq_refl
-                  Efx Elb Hside Hclass Hinv Hall Hcp Hwh
+                  Efx Elb Hside Hclass F1 F2 Hinv Hall Hcp Hwh
                   ltac:(exists nn, cval; auto 10))
         as (pe_n & ρ2 & -> & R2 & Hinv2 & Halln & G2 & Eo). cbn [fst snd] in *. subst outs1.
       exists sc1, st1, nh', n2, pe_n, ρ2.
